@@ -484,8 +484,26 @@ def _a_to_numpy(eng, recv, args, kwargs):
     return recv
 
 
+def faithful_cast(eng, recv, dt):
+    """where the carrier's contract asks for DTYPE-FAITHFUL casts (`eng.ghost["dtype-faithful"]`, set by its setup: the SWC reading
+    chain), a cast of a symbolic 1-D array that can change a value (int -> narrower int wraps, int -> float, float -> int) goes through
+    `ext_C05_frame.cast_col`; None = the stock model applies"""
+    if not isinstance(recv, SArr) or dt is None or not (eng.ghost.get("dtype-faithful") or recv.kind == "real"):
+        return None
+    from . import ext_C05_frame
+
+    if recv.kind == "real" and kind_of_dtype(dt) != "int":
+        return None
+    return ext_C05_frame.array_astype(eng, recv, dt)
+
+
 def _a_astype(eng, recv, args, kwargs):
+    if not args and "dtype" in kwargs:
+        args = [kwargs["dtype"]]
     k = kind_of_dtype(args[0])
+    fc = faithful_cast(eng, recv, args[0])
+    if fc is not None:
+        return fc
     if isinstance(recv, NArr):
         from . import narr
 
@@ -986,6 +1004,9 @@ def _np_array(eng, args, kwargs):
     k = kind_of_dtype(dt) if dt is not None else None
     if isinstance(src, SArr):
         kk = k or src.kind
+        fc = faithful_cast(eng, src, dt)
+        if fc is not None:
+            return fc
         if kk == src.kind:
             return SArr(src.arr, src.n, kk, name=src.name + "_arr", dtype=dt)
         return _a_astype(eng, src, [dt], {})
@@ -1199,6 +1220,12 @@ class DFrame:
             return NativeMethod(lambda e, r, a, k: DFrame({c: SArr(v.arr, v.n, v.kind, name=c, dtype=v.dtype) for c, v in r.cols.items()}, r.n), self, name)
         if name == "to_numpy":
             raise Unsupported("DataFrame.to_numpy")
+        if name == "astype":
+            from . import ext_C05_frame
+
+            return NativeMethod(ext_C05_frame.frame_astype, self, name)
+        if name == "dtypes":
+            raise Unsupported("DataFrame.dtypes")
         raise Unsupported(f"DataFrame.{name}")
 
 
